@@ -1,4 +1,161 @@
-From MrVerif Require Import Model.CG Proofs.CGProofs.
-From Coq Require Import QArith List. Import ListNotations.
-Example C06_example : cgQ_run [[2#1;0#1];[0#1;2#1]] (0#1) [1#1;2#1] None 3 = (0%nat, [(1,2);(1,1)]%Z, [([(1,2);(1,1)], [(0,1);(0,1)], 0%nat)]%Z).
+(* C06 - Conjugate gradient returns the Krylov-optimal iterate and never corrupts it.
+
+   The theorems are about the ONE polymorphic model Model/CG.v (cg.py as repaired: x0 = b and r0 = b - H b when
+   initial_value is None; return when <r,r> = 0 before and inside the loop; tolerance test; beta, p, Hp,
+   alpha = rr/<p,Hp>; callback trace).  They hold for every field (Section variables + field_theory) and every
+   linear operator H, hence for the instance executed by the harness (cgQ: exact rationals Qc, dense matrix) -
+   stated separately below, suffix _Qc - and for the reals (R_field_theory, Reqb_spec in Proofs/CGProofsInst.v).
+   Complex Hermitian systems are covered through their realification (done by the harness).
+   The model is tied to /repo/src/mrpro/algorithms/optimizers/cg.py on every run by harness/props/C06.py.
+
+   Not proved (hence the suffix _partial): that span{p_0..p_(k-1)} equals the Krylov space span{r0, H r0, .., H^(k-1) r0}
+   (optimality is stated over the span of the step directions, which are observable as x_(j+1) - x_j), and
+   "the solution is reached within n iterations" (a dimension argument); both are checked on the implementation by
+   the oracle of harness/props/C06.py for every generated system. "Inputs untouched" holds by construction of
+   the functional model (nothing is written); the run-time side is checked by the harness (values and ._version). *)
+From Coq Require Import List Bool Arith Field QArith Qcanon.
+Import ListNotations.
+From MrVerif Require Import Model.CG Proofs.CGProofs Proofs.CGProofsInst.
+
+Section Generic.
+  Variable F : Type.
+  Variables (f0 f1 : F) (fadd fmul fsub : F -> F -> F) (fopp : F -> F) (fdiv : F -> F -> F) (finv : F -> F).
+  Hypothesis Fth : field_theory f0 f1 fadd fmul fsub fopp fdiv finv (@eq F).
+  Variables feqb fltb : F -> F -> bool.
+  Hypothesis feqb_spec : forall a b, feqb a b = true <-> a = b.
+  Variable Hop : list F -> list F.
+  Variable tol : F.
+  Notation "u +v v" := (vadd F fadd u v) (at level 50, left associativity).
+  Notation "u -v v" := (vsub F fsub fopp u v) (at level 50, left associativity).
+  Notation "c *v u" := (vscale F fmul c u) (at level 40, left associativity).
+  Notation "<< u , v >>" := (dot F f0 fadd fmul u v) (at level 0).
+  Notation CG := (cg F f0 fadd fmul fsub fopp fdiv feqb fltb Hop tol).
+  Notation RUN := (cg_run F f0 fadd fmul fsub fopp fdiv feqb fltb Hop tol).
+  Notation INIT := (cg_init F fsub fopp Hop).
+  Notation ITER := (cg_iter F f0 fadd fmul fsub fopp fdiv feqb fltb Hop tol).
+  Notation ERR := (errH F f0 fadd fmul fsub fopp Hop).
+
+  Definition linear := (forall u v, Hop (u +v v) = Hop u +v Hop v) /\ (forall c u, Hop (c *v u) = c *v Hop u).
+  Definition self_adjoint := forall u v, << u, Hop v >> = << Hop u, v >>.
+
+  (* (1) every (solution, residual, iteration) reported to the callback has residual = b - H solution:
+     every linear H (symmetric or not), every b, start value (None included), budget, tolerance *)
+  Theorem C06_residual : linear -> forall b x0 n x r k trace res,
+    (CG b x0 n = Done res trace \/ CG b x0 n = Diverged trace) -> In (x, r, k) trace -> r = b -v Hop x.
+  Proof. intros [Ha Hs]. exact (cg_residual F _ _ _ _ _ _ _ _ Fth feqb fltb feqb_spec Hop Ha Hs tol). Qed.
+
+  (* the callback sees iteration numbers 0,1,2,.. and at most max_iterations calls *)
+  Theorem C06_iteration_numbers : forall b x0 n trace res,
+    CG b x0 n = Done res trace -> map snd trace = seq 0 (length trace) /\ (length trace <= n)%nat.
+  Proof. exact (cg_iteration_numbers F _ _ _ _ _ _ feqb fltb Hop tol). Qed.
+
+  (* (3) no division by zero, whatever the start value, the budget and the tolerance (0 included, also after
+     exact convergence): H definite on F^n (u not orthogonal to everything => <u,Hu> <> 0), b in F^n *)
+  Theorem C06_finite : forall n, (forall u, length (Hop u) = n) ->
+    (forall u w, length u = n -> length w = n -> << u, w >> <> f0 -> << u, Hop u >> <> f0) ->
+    forall b x0 m trace, length b = n -> CG b x0 m <> Diverged trace.
+  Proof. intros n Hl Hd. exact (cg_finite F _ _ _ _ _ _ _ _ Fth feqb fltb feqb_spec Hop tol n Hl Hd). Qed.
+
+  (* (4) zero residual is a fixed point: starting at an exact solution returns it untouched without any iteration,
+     and a loop state with zero residual returns its solution for every remaining budget *)
+  Theorem C06_fixed_point_start : forall b x0 n, Hop x0 = b -> RUN b (Some x0) n = (Some x0, []).
+  Proof. exact (cg_exact_start F _ _ _ _ _ _ _ _ Fth feqb fltb feqb_spec Hop tol). Qed.
+  Theorem C06_fixed_point_loop : forall fuel st, << sr st, sr st >> = f0 -> ITER fuel st = (Some (sx st), []).
+  Proof. exact (cg_iter_fixed_point F _ _ _ _ _ _ feqb fltb feqb_spec Hop tol). Qed.
+
+  (* (2a) H self-adjoint: the direction of every iteration is H-conjugate to all earlier directions *)
+  Theorem C06_conjugate : self_adjoint -> forall b x0 m res h, RUN b x0 m = (res, h) ->
+    forall h1 s h2, h = h1 ++ s :: h2 -> Forall (fun q => << sp s, Hop q >> = f0) (map sp h1).
+  Proof. intros Hs b x0 m res h Hr. exact (cg_conjugate F _ _ _ _ _ _ _ _ Fth feqb fltb feqb_spec Hop tol Hs _ b x0 m res h eq_refl Hr). Qed.
+
+  (* (2b) every residual is orthogonal to all directions used so far and to all earlier residuals *)
+  Theorem C06_orthogonal : self_adjoint -> forall b x0 m res h, RUN b x0 m = (res, h) ->
+    forall h1 s h2, h = h1 ++ s :: h2 ->
+      Forall (fun q => << sr s, q >> = f0) (map sp (h1 ++ [s])) /\
+      Forall (fun q => << sr s, q >> = f0) (map sr (INIT b x0 :: h1)).
+  Proof.
+    intros Hs b x0 m res h Hr h1 s h2 Hh. split.
+    - exact (cg_residual_orth_dirs F _ _ _ _ _ _ _ _ Fth feqb fltb feqb_spec Hop tol Hs _ b x0 m res h eq_refl Hr h1 s h2 Hh).
+    - exact (cg_residual_orth_res F _ _ _ _ _ _ _ _ Fth feqb fltb feqb_spec Hop tol Hs _ b x0 m res h eq_refl Hr h1 s h2 Hh).
+  Qed.
+
+  (* (2c) ordered field, H self-adjoint and positive semi-definite, xs any solution of H xs = b:
+     x_k lies in x0 + span{p_0..p_(k-1)} and minimises the H-norm error over x_k + span{p_0..p_(k-1)}
+     (Pythagoras: the error grows by exactly <d,Hd>).  partial: see the header. *)
+  Variable fle : F -> F -> Prop.
+  Hypothesis fle_add_nonneg : forall a c, fle f0 c -> fle a (fadd a c).
+  Theorem C06_optimal_partial : linear -> self_adjoint -> (forall d, fle f0 << d, Hop d >>) ->
+    forall xs b x0 m res h h1 s h2, RUN b x0 m = (res, h) -> h = h1 ++ s :: h2 -> Hop xs = b ->
+    (exists cs, sx s = sx (INIT b x0) +v lincomb F fadd fmul cs (rev (map sp (h1 ++ [s])))) /\
+    forall cs, let d := lincomb F fadd fmul cs (map sp (h1 ++ [s])) in
+      ERR xs (sx s +v d) = fadd (ERR xs (sx s)) << d, Hop d >> /\ fle (ERR xs (sx s)) (ERR xs (sx s +v d)).
+  Proof.
+    intros [Ha Hsc] Hs Hp xs b x0 m res h h1 s h2 Hr Hh Hb. split.
+    - exact (cg_iterate_in_span F _ _ _ _ _ _ _ _ Fth feqb fltb feqb_spec Hop tol Hs _ b x0 m res h eq_refl Hr h1 s h2 Hh).
+    - intros cs d. split.
+      + exact (cg_pythagoras F _ _ _ _ _ _ _ _ Fth feqb fltb feqb_spec Hop Ha Hsc tol Hs _ xs b x0 m res h eq_refl Hr h1 s h2 Hh Hb cs).
+      + exact (cg_optimal F _ _ _ _ _ _ _ _ Fth feqb fltb feqb_spec Hop Ha Hsc tol Hs _ xs fle fle_add_nonneg Hp b x0 m res h h1 s h2 eq_refl Hr Hh Hb cs).
+  Qed.
+
+  (* (2d) the H-norm error never increases from one iterate to the next (start value included) *)
+  Theorem C06_monotone : linear -> self_adjoint -> (forall d, fle f0 << d, Hop d >>) ->
+    forall xs b x0 m res h l1 s s' l2, RUN b x0 m = (res, h) -> INIT b x0 :: h = l1 ++ s :: s' :: l2 -> Hop xs = b ->
+    fle (ERR xs (sx s')) (ERR xs (sx s)).
+  Proof.
+    intros [Ha Hsc] Hs Hp xs b x0 m res h l1 s s' l2 Hr Hh Hb.
+    exact (cg_monotone F _ _ _ _ _ _ _ _ Fth feqb fltb feqb_spec Hop Ha Hsc tol Hs _ xs fle fle_add_nonneg Hp b x0 m res h l1 s s' l2 eq_refl Hr Hh Hb).
+  Qed.
+End Generic.
+Print Assumptions C06_residual.
+Print Assumptions C06_iteration_numbers.
+Print Assumptions C06_finite.
+Print Assumptions C06_fixed_point_start.
+Print Assumptions C06_fixed_point_loop.
+Print Assumptions C06_conjugate.
+Print Assumptions C06_orthogonal.
+Print Assumptions C06_optimal_partial.
+Print Assumptions C06_monotone.
+
+(* ---- the same statements for the instance that is executed against the implementation (cgQ) ---- *)
+Theorem C06_residual_Qc : forall M tol b x0 n x r k trace res,
+  (cgQ M tol b x0 n = Done res trace \/ cgQ M tol b x0 n = Diverged trace) -> In (x, r, k) trace -> r = vsubQ b (mvQ M x).
+Proof. exact cgQ_residual. Qed.
+Print Assumptions C06_residual_Qc.
+
+Theorem C06_finite_Qc : forall n M tol b x0 m trace, length M = n -> pdQ n M -> length b = n -> cgQ M tol b x0 m <> Diverged trace.
+Proof. exact cgQ_finite. Qed.
+Print Assumptions C06_finite_Qc.
+
+Theorem C06_optimal_Qc_partial : forall M tol xs b x0 m res h h1 s h2, symQ M -> psdQ M ->
+  runQ M tol b x0 m = (res, h) -> h = h1 ++ s :: h2 -> mvQ M xs = b ->
+  forall cs, (errHQ M xs (sx s) <= errHQ M xs (vaddQ (sx s) (lincomb Qc Qcplus Qcmult cs (map sp (h1 ++ [s])))))%Qc.
+Proof. exact cgQ_optimal. Qed.
+Print Assumptions C06_optimal_Qc_partial.
+
+Theorem C06_monotone_Qc : forall M tol xs b x0 m res h l1 s s' l2, symQ M -> psdQ M ->
+  runQ M tol b x0 m = (res, h) -> initQ M b x0 :: h = l1 ++ s :: s' :: l2 -> mvQ M xs = b ->
+  (errHQ M xs (sx s') <= errHQ M xs (sx s))%Qc.
+Proof. exact cgQ_monotone. Qed.
+Print Assumptions C06_monotone_Qc.
+
+(* ---- non-vacuity: runs of the model ---- *)
+(* initial_value = None starts at x0 = b with r0 = b - H b (the repaired behaviour): H = 2I, b = (1,2), one iteration *)
+Example C06_example_none_init :
+  cgQ_run [[2#1;0#1];[0#1;2#1]] (0#1) [1#1;2#1] None 1 = (0%nat, [(1,2);(1,1)]%Z, [([(1,2);(1,1)], [(0,1);(0,1)], 0%nat)]%Z).
+Proof. vm_compute. reflexivity. Qed.
+(* tolerance 0 after exact convergence with budget left: finite result, one callback (was 0/0 before the repair) *)
+Example C06_example_tol0_exact :
+  cgQ_run [[1#1]] (0#1) [1#1] (Some [0#1]) 5 = (0%nat, [(1,1)]%Z, [([(1,1)], [(0,1)], 0%nat)]%Z).
+Proof. vm_compute. reflexivity. Qed.
+(* a 2x2 SPD system is solved in two steps; residual of the last step is exactly 0 *)
+Example C06_example_2x2 :
+  cgQ_run [[4#1;1#1];[1#1;3#1]] (0#1) [1#1;2#1] (Some [0#1;0#1]) 5
+  = (0%nat, [(1,11);(7,11)]%Z, [([(1,4);(1,2)], [(-1,2);(1,4)], 0%nat); ([(1,11);(7,11)], [(0,1);(0,1)], 1%nat)]%Z).
+Proof. vm_compute. reflexivity. Qed.
+(* an indefinite H with <p,Hp> = 0: the explicit division by zero *)
+Example C06_example_indefinite_diverges :
+  cgQ_run [[0#1;1#1];[1#1;0#1]] (0#1) [1#1;0#1] (Some [0#1;0#1]) 5 = (1%nat, [], []).
+Proof. vm_compute. reflexivity. Qed.
+(* shape mismatch = ValueError *)
+Example C06_example_shape : cgQ_run [[1#1]] (0#1) [1#1] (Some [0#1;0#1]) 5 = (2%nat, [], []).
 Proof. vm_compute. reflexivity. Qed.
